@@ -95,8 +95,11 @@ class C13(Prop):
                 after_connected = "connected" in names[:i + 1]
                 sub.append(("%d:%s" % (i, mech), after_connected))
                 if tr.names() != names[:i + 1]:
-                    return failed("harness", "abandoned run diverged from the base run: %s vs %s" % (
-                        tr.names(), names[:i + 1]), labels, after_connected, sub)
+                    # the same scenario took another course (behaviour that depends on earlier executions is some
+                    # other property's business): judge the abandonment only if it took place at all
+                    labels.add("inconclusive:run_differs_from_unabandoned_run")
+                    if not str(tr.ended).startswith("abandon"):
+                        continue
                 site = name
                 if name == "poll" and i > 0 and names[i - 1] in ("poll", "ready") and tr.events[i]["t"] > tr.events[i - 1]["t"]:
                     site = "poll(top of loop)"
